@@ -21,6 +21,9 @@ def main():
             missing.append(pid)
             continue
         m = importlib.import_module("harness.props." + pid.lower())
+        if not getattr(m, "LEVEL_TEXT", ""):
+            missing.append(pid)      # module present but the check is not finished
+            continue
         checks.append({
             "property_id": pid,
             "quick_cmd": "./vcheck %s --tier quick" % pid,
